@@ -561,7 +561,7 @@ def check(ctx):
     units += [("sort-derive-sort", k, n) for k in ("int", "str") for n in (2, 3, 4)]
     units += [("object-keys",), ("odd-names",)]
     agg = core.merge_all(core.pmap(run_unit, units))
-    agg.notes["bound"] = f"tables rows<={N} (1 key) / <={N2} (2 keys) / <={ctx.pick(2,3)} (3 keys); vectors len<={N}"
+    agg.notes["bound"] = f"tables rows<={N} (1 key) / <={N2} (2 keys) / <={ctx.pick(2,3)} (3 keys); vectors len<={N}; 8 key alphabets incl. strings one of which is a prefix of the other"
     agg.notes["exhaustive"] = True
     return agg
 
